@@ -91,3 +91,68 @@ func TestVerifC09(t *testing.T) {
 		"C08 decks with points at every suffix under/over the range keys; combined iterators with RangeKeyMasking.Suffix drawn from all suffixes; "+
 			"each masked scan is compared with the model's masking rule and run twice, with and without the block-property filter mask.", nil)
 }
+
+// C04: iterators and clones keep a fixed view for their lifetime.
+func TestVerifC04(t *testing.T) {
+	k := Knobs{Name: "C04", Units: 150, RangeKeys: true, Batches: true, BatchIters: true, LongIters: true, Iters: true, IterBurst: 10, Maint: true,
+		Ingest: true, Excise: true, AuditEvery: 10, NoAutoCompactionsPct: 10, TinyCaches: true}
+	runDeck(t, "C04", "main", k, 150, 3000,
+		"Histories with up to 6 long-lived iterators (on the DB and on indexed batches, plus clones with and without new options) created at random "+
+			"points and re-driven (full forward and backward walk + positioning ops) after later writes, flushes, compactions that delete their files "+
+			"(file cache of 1-2 handles and a zero-byte block cache force re-opening files), ingests and excises; batch iterators must not see "+
+			"later batch mutations until SetOptions or Clone{RefreshBatchView} and must see them afterwards.", nil)
+}
+
+// C14: background maintenance never changes what readers see.
+func TestVerifC14(t *testing.T) {
+	k := Knobs{Name: "C14", Units: 140, RangeKeys: true, Snapshots: true, SnapAudit: true, LongIters: true, EFOS: true, Maint: true, MaintHeavy: true,
+		Ingest: true, Excise: true, Ratchet: true, BigValues: true, ValueSep: true, AuditEvery: 12, NoAutoCompactionsPct: 30}
+	runDeck(t, "C14", "main", k, 120, 3000,
+		"Histories shaped to provoke each maintenance kind (flush, default/move/delete-only/elision-only/intra-L0 compactions, manual Compact, "+
+			"blob-file and virtual-sstable rewrites, format ratchets); a full audit of the latest state, every open snapshot, EFOS and long-lived "+
+			"iterator brackets every maintenance action (before and after, both against the model). The event listener records which kinds really ran.",
+		nil)
+}
+
+// C15: LSM level invariant holds after every operation.
+func TestVerifC15(t *testing.T) {
+	k := Knobs{Name: "C15", Units: 130, RangeKeys: true, Batches: true, Maint: true, Ingest: true, IngestHeavy: true, Excise: true, BigValues: true,
+		AuditEvery: 1, LightAudit: true, VersionWalk: true, NoAutoCompactionsPct: 20}
+	runDeck(t, "C15", "main", k, 200, 4000,
+		"Histories biased to ingests (landing in low levels, overlapping memtables, split ingests), excises and IngestAndExcise; after EVERY step "+
+			"CheckLevels runs, an independent walker checks the current version (per-level bounds ordering and non-overlap, L0 sublevel non-overlap and "+
+			"sequence ordering between overlapping L0 files, Version.CheckOrdering) and a content walker opens every new table and checks each entry "+
+			"against the table's recorded bounds and sequence range. Options.DebugCheck=DebugCheckLevels runs on every version install.", nil)
+}
+
+// C36: ingest and excise behave like their logical equivalents.
+func TestVerifC36(t *testing.T) {
+	k := Knobs{Name: "C36", Units: 120, RangeKeys: true, Batches: true, Maint: true, Ingest: true, IngestHeavy: true, Excise: true, LongIters: true,
+		Snapshots: true, SnapAudit: true, BigValues: true, AuditEvery: 4, NoAutoCompactionsPct: 20}
+	runDeck(t, "C36", "main", k, 200, 4000,
+		"Histories dominated by Ingest (1-3 disjoint tables with points, merges, point and range tombstones, range keys; overlapping the memtable or "+
+			"not; flushable or not), IngestAndExcise and Excise, interleaved with writes and maintenance; the model applies an ingest as one unit "+
+			"(a table's tombstones do not cover its own keys), an excise as removal of all point and range keys in the span; iterators opened "+
+			"before an excise are re-driven afterwards and must be unchanged.", nil)
+}
+
+// C37: eventually-file-only snapshots keep their protected view.
+func TestVerifC37(t *testing.T) {
+	k := Knobs{Name: "C37", Units: 130, RangeKeys: true, EFOS: true, EFOSHeavy: true, SnapAudit: true, Maint: true, Ingest: true, Excise: true,
+		AuditEvery: 6, NoAutoCompactionsPct: 20}
+	runDeck(t, "C37", "main", k, 150, 3000,
+		"Histories with 1-2 EFOS over 1-2 key ranges, writes to the protected ranges before and after creation, forced transitions (flush + "+
+			"WaitForFileOnlySnapshot), compactions of the pinned files, and excises / IngestAndExcise overlapping or adjacent to the ranges; reads "+
+			"inside the protected ranges (Get of every key, bounded scans) are compared with the model state at creation before and after the transition.",
+		nil)
+}
+
+// C44: separated values read back identically.
+func TestVerifC44(t *testing.T) {
+	k := Knobs{Name: "C44", Units: 140, RangeKeys: false, Batches: true, Snapshots: true, SnapAudit: true, Maint: true, MaintHeavy: true, Reopen: true,
+		Ingest: false, BigValues: true, ValueSep: true, ForceValueSep: true, Iters: true, IterBurst: 12, AuditEvery: 7, NoAutoCompactionsPct: 10}
+	runDeck(t, "C44", "main", k, 150, 3000,
+		"Value-separation histories: ValueSeparationPolicy with MinimumSize in {1..64}, values of length threshold-1/threshold/threshold+1, empty, "+
+			"and multi-block; overwrites create blob garbage so blob-file rewrite compactions run (listener-confirmed); every value read through Get, "+
+			"iterators (ValueAndErr) and snapshots is compared byte for byte with the model across flushes, compactions, rewrites and reopen.", nil)
+}
